@@ -225,7 +225,39 @@ func emitFacts(pkgs map[string]*parsed) string {
 		sb.WriteString(" " + k + " := " + leanBool(flags[k]))
 	}
 	sb.WriteString(" }\n")
+	sb.WriteString("\n/-- NewControlBeheraPasswordPolicy range-checks the error code on both sides before narrowing -/\n")
+	sb.WriteString("def beheraErrRange : Bool := " + leanBool(beheraErrRange(pkgs)) + "\n")
 	sb.WriteString(emitRuntimeFacts(pkgs))
 	sb.WriteString("\nend Gldap.Generated\n")
 	return sb.String()
+}
+
+// beheraErrRange: some case of the constructor's switch rejects both withErrorCode > 8 and
+// withErrorCode < -1 (or < 0 together with an explicit != -1).
+func beheraErrRange(pkgs map[string]*parsed) bool {
+	fn := findFunc(pkgs["gldap"], "NewControlBeheraPasswordPolicy")
+	if fn == nil {
+		return false
+	}
+	upper, lower := false, false
+	ast.Inspect(fn.Body, func(n ast.Node) bool {
+		var conds []ast.Expr
+		switch s := n.(type) {
+		case *ast.CaseClause:
+			conds = s.List
+		case *ast.IfStmt:
+			conds = []ast.Expr{s.Cond}
+		}
+		for _, c := range conds {
+			t := exprText(c)
+			if strings.Contains(t, "withErrorCode > 8") || strings.Contains(t, "withErrorCode >= 9") {
+				upper = true
+			}
+			if strings.Contains(t, "withErrorCode < -1") || strings.Contains(t, "withErrorCode <= -2") {
+				lower = true
+			}
+		}
+		return true
+	})
+	return upper && lower
 }
